@@ -473,7 +473,7 @@ func init() {
 			}
 			// frame prints the table key (canonical path), never importInfo-internal data
 			if t := traceOf(c, r, "gen.frame"); t != nil {
-				r.Check(strings.Contains(t.text, "«SORT m1» LOOP[range m1 as k1,v1]{ ALT[recv.imports[v1].differs]{ ⟨recv.imports[v1].name⟩ }{ } ⟨q:v1⟩ ¶ }"), "frame/prints-sorted-canonical-paths", t.fi.Decl.Pos(), "imports are printed from the sorted key list, quoting the canonical path")
+				r.Check(regexpMatch(`«SORT (m\d+)» import \( ¶ LOOP\[range m\d+ as k\d+,(v\d+)\]\{ ALT\[recv\.imports\[v\d+\]\.differs\]\{ ⟨recv\.imports\[v\d+\]\.name⟩ \}\{ \} ⟨q:v\d+⟩ ¶ \}`, t.text), "frame/prints-sorted-canonical-paths", t.fi.Decl.Pos(), "imports are printed from the sorted key list, quoting the canonical path")
 			}
 		})
 }
